@@ -178,6 +178,13 @@ theorem step_trackAtoms (st : St) (as : List TAtom) : Step st (as.foldl trackAto
 
 theorem step_trackAssign (st : St) (t : Expr) : Step st (trackAssign st t) := step_trackAtoms _ _
 
+theorem step_trackTargets (st : St) (ts : List Expr) : Step st (ts.foldl trackAssign st) := by
+  induction ts generalizing st with
+  | nil => exact Step.refl st
+  | cons t ts ih =>
+    simp only [List.foldl_cons]
+    exact Step.trans (step_trackAssign st t) (ih _)
+
 theorem step_macroArgs (st : St) (as : List String) (ds : List Expr) :
     Step st (macroArgs st as ds) := by
   induction as generalizing st ds with
